@@ -1,6 +1,9 @@
 import OtelVerif.Common.Line
 import OtelVerif.Model.C13
 import OtelVerif.Model.C13Faithful
+import OtelVerif.Model.C13HooksGen
+import OtelVerif.Model.C13Walk
+import OtelVerif.Model.C13Load
 import OtelVerif.Gen.ConfigSchemas
 /-! driver for C13: models `c13-walk` (validation walk), `c13-refs` (reference checks), `c13-dec` (strict decode) -/
 open OtelVerif OtelVerif.Line OtelVerif.C13
@@ -69,6 +72,26 @@ def showErrs (l : List (Path × Nat)) : String :=
 def errItems (l : List (Path × Nat)) : List String :=
   sortStrs (l.map (fun p => "::".intercalate p.1 ++ ":E" ++ toString p.2))
 
+mutual
+/-- does the tree hold a map with two or more entries (the only source of nondeterministic order in the walk)? -/
+def multiMap : VT → Bool
+  | .leaf _ => false
+  | .nilv => false
+  | .ptr v => multiMap v
+  | .struct _ fs => multiMapF fs
+  | .seq _ vs => multiMapL vs
+  | .map _ kvs => kvs.length ≥ 2 || multiMapKV kvs
+def multiMapF : List (String × Bool × VT) → Bool
+  | [] => false
+  | (_, _, v) :: fs => multiMap v || multiMapF fs
+def multiMapL : List VT → Bool
+  | [] => false
+  | v :: vs => multiMap v || multiMapL vs
+def multiMapKV : List (String × VT × VT) → Bool
+  | [] => false
+  | (_, kv, v) :: kvs => multiMap kv || multiMap v || multiMapKV kvs
+end
+
 structure WS where
   model : List String := []
   fails : List String := []
@@ -81,7 +104,14 @@ def walkHandler : Handler WS where
     match toks with
     | "walk" :: ":" :: rest =>
       match parseVT rest with
-      | some (t, []) => ({ s with model := errItems (validate t) }, ["obs errs " ++ showErrs (validate t)])
+      | some (t, []) =>
+        -- what the differential compares is the interpreter of the REGENERATED clause table (`C13_walk_regenerated`: equal to
+        -- `validate` as long as the source has the reviewed clauses); the property oracle below stays on `validate`, the executable
+        -- form of the specification `Fails`
+        let g := walkG Gen.ValidateWalk.cases t
+        let ord := g.map (fun p => "::".intercalate p.1 ++ ":E" ++ toString p.2)
+        ({ s with model := errItems (validate t) },
+         ["obs errs " ++ showErrs g] ++ (if multiMap t then [] else ["obs order " ++ (if ord.isEmpty then "-" else ",".intercalate ord)]))
       | _ => (s, ["obs bad-op"])
     | _ => (s, ["obs bad-op"])
   onObs := fun s toks =>
@@ -285,7 +315,7 @@ def faithOp (toks : List String) : String :=
         | some path, some id => some (splitPath path, Val.scalar id)
         | _, _ => none
       let v := written.foldl (fun acc p => insertVal acc p.1 p.2) (Val.map [])
-      match (componentHooks Gen.ConfigSchemas.customPositions comp).bind (fun hooks => decodeC hooks S d v) with
+      match (componentHooksG Gen.ConfigSchemas.customPositions comp).bind (fun hooks => decodeC hooks S d v) with
       | none => "obs shown decode-failed"
       | some t =>
         let e := encodeV S t
@@ -313,7 +343,8 @@ def loadHandler : Handler LS where
         let secs := wr.filterMap (fun p => if p.2.startsWith "!" then some (p.2.drop 1).toString else none)
         let wr' := wr.map (fun p => if p.2.startsWith "!" then (p.1, marker) else p)
         let s := { s with entries := s.entries ++ [((ty, id), wr')], secrets := secs ++ s.secrets }
-        let st := loadAll (fun t => (s.defs.lookup t).getD []) s.entries
+        -- computed by the interpreter of the REGENERATED statements of `Configs.Unmarshal` (`C13_load_regenerated`: = `loadAll`)
+        let st := runLoad Gen.ConfigsLoad.before Gen.ConfigsLoad.body (fun t => (s.defs.lookup t).getD []) s.entries
         match st.result (ty, id) with
         | some o =>
           let qs := if q == "-" then [] else q.splitOn ","
